@@ -49,6 +49,14 @@ OPS = [
     ("bool", r"&&", ["||"]), ("bool", r"\|\|(?!\s*\{)", ["&&"]), ("bool", r"\btrue\b", ["false"]), ("bool", r"\bfalse\b", ["true"]),
     ("neg", r"(?<=[=\(,]\s)-(?=[\w\(])", [""]),
     ("zero-one", r"T::zero\(\)", ["T::one()"]), ("zero-one", r"T::one\(\)", ["T::zero()"]),
+    ("swap", r"\.real\b", [".imag"]), ("swap", r"\.imag\b", [".real"]),
+    ("swap", r"\bself\.rows\b", ["self.cols"]), ("swap", r"\bself\.cols\b", ["self.rows"]), ("swap", r"\brows\(\)", ["cols()"]), ("swap", r"\bcols\(\)", ["rows()"]),
+    ("swap", r"\bself\.m1\b", ["self.m2"]), ("swap", r"\bself\.m2\b", ["self.m1"]), ("swap", r"\bself\.sub\b", ["self.sup"]), ("swap", r"\bself\.sup\b", ["self.sub"]),
+    ("swap", r"\bself\.nx\b", ["self.ny"]), ("swap", r"\bself\.ny\b", ["self.nx"]),
+    ("swap", r"\(\s*i\s*,\s*j\s*\)", ["(j,i)"]), ("swap", r"\(\s*k\s*,\s*j\s*\)", ["(j,k)"]), ("swap", r"\(\s*i\s*,\s*k\s*\)", ["(k,i)"]),
+    ("swap", r"\[\s*i\s*\]", ["[ j ]", "[ 0 ]"]), ("swap", r"\[\s*j\s*\]", ["[ i ]"]), ("swap", r"\[\s*k\s*\]", ["[ i ]"]),
+    ("swap", r"\.min\(", [".max("]), ("swap", r"\.max\(", [".min("]), ("swap", r"\.abs\(\)", [""]), ("swap", r"\.conj\(\)", [""]),
+    ("swap", r"\.clone\(\) \+ ", [".clone() - "]), ("swap", r"transpose_multiply\(", ["multiply("]),
     ("num", r"\b0\.5\b", ["0.25"]), ("num", r"\b2\.0\b", ["3.0"]), ("num", r"\b1\.0\b", ["2.0"]),
 ]
 
@@ -229,6 +237,7 @@ def main():
     ap.add_argument("--files", default="")
     ap.add_argument("--summary", action="store_true")
     ap.add_argument("--cleanup", action="store_true")
+    ap.add_argument("--rerun-survivors", action="store_true", help="re-evaluate the mutants whose latest verdict is SURVIVED")
     a = ap.parse_args()
     if a.summary:
         return summary()
@@ -241,6 +250,17 @@ def main():
         return
     os.makedirs(BASE, exist_ok=True)
     os.makedirs(os.path.dirname(OUT), exist_ok=True)
+    if a.rerun_survivors:
+        last = {}
+        for l in open(OUT):
+            r = json.loads(l); last[(r["file"], r["line"], r["kind"], r["col"], r["new"])] = r
+        pick = [{k: r[k] for k in ("file", "line", "kind", "col", "old", "new", "text")} for r in last.values() if r["verdict"] == "SURVIVED"]
+        print(f"re-running {len(pick)} survivors", flush=True)
+        lock = threading.Lock(); outf = open(OUT, "a")
+        ws = [Worker(i, pick, lock, outf, a.seed) for i in range(a.workers)]
+        for w in ws: w.start()
+        for w in ws: w.join()
+        return summary()
     cands = candidates([s for s in a.files.split(",") if s])
     done = set()
     if os.path.exists(OUT):
